@@ -244,6 +244,8 @@ class CSSVariablesDeclaration(cssutils.util._NewBase):
             - :exc:`~xml.dom.NoModificationAllowedErr`:
               Raised if this declaration is readonly is readonly.
         """
+        self._checkReadonly()
+
         normalname = normalize(variableName)
         try:
             r = self._vars[normalname]
